@@ -119,6 +119,11 @@ impl F64 {
     #[verifier::external_body]
     pub fn floor(self) -> (r: F64) ensures r@ == xr_floor(self@) { F64 { v: self.v.floor() } }
 }
+impl F64 {
+    // num::Zero for f64 (is_zero: == 0.0, true for +0 and -0)
+    #[verifier::external_body]
+    pub fn is_zero(&self) -> (r: bool) ensures r == (self@ == XR::Fin(0real)) { self.v == 0.0 }
+}
 impl Default for F64 { #[verifier::external_body] fn default() -> (r: F64) ensures r@ == XR::Fin(0real) { F64 { v: 0.0 } } }
 #[verifier::external_body]
 pub fn f64_infinity() -> (r: F64) ensures r@ == XR::PosInf { F64 { v: f64::INFINITY } }
